@@ -142,6 +142,7 @@ class _Meta(Contract):
 @register
 class GetCanonicalPool(_Meta):
     path, qualname = IDX, 'IndexMetadata.get_canonical_pool'
+    props = ('C12', 'C10')          # C10: the pool served from an index directory is the one digested with exactly the run's parameters
 
     def setup(self, I):
         st = types.SimpleNamespace()
